@@ -103,6 +103,11 @@ def run(R):
         T = E.random_tm(rnd, halting_q0=0); case('generate', [('tm', TA.print_tm(T))], {'length': 2}, 'r%d' % i)
         G = simple_cfg(rnd); tg = CA.cfg_print_simple(G)
         for ph in range(1, 6): case('chomsky%d' % ph, [('cfg', tg)], {'start': rnd.choice([v for v in 'TZX' if v not in G.V]), 'length': 4}, 'r%d' % i)
+        if i % 2 == 0:       # the same reference written with a declared epsilon symbol of its own (simple format: a line `epsilon = e`)
+            Ge = simple_cfg(rnd, productive=True, nullable=True) if 'nullable' in simple_cfg.__code__.co_varnames else G
+            te = 'epsilon = e\n' + CA.cfg_print_simple(Ge).replace('ε', 'e')
+            for ph in range(1, 6): case('chomsky%d' % ph, [('cfg', te)], {'start': rnd.choice([v for v in 'TZX' if v not in Ge.V]), 'length': 4}, 'eps-e%d' % i)
+            case('generate', [('cfg', te)], {'length': 3}, 'eps-e%d' % i)
         case('generate', [('cfg', tg)], {'length': 3}, 'r%d' % i)
         C = CA.cfg_to_chomsky(G)
         if CA.cfg_is_simple(C):
